@@ -71,7 +71,7 @@ def scenario(big: bool = False) -> Any:
         if not d.pop("has_stop"):
             d["stop"] = None
         d.pop("burst_timeout", None)
-        d.update({"N": None, "W": None, "ends": True})
+        d.update({"N": None, "W": d.pop("W"), "ends": True})
         d["horizon"] = cm.horizon_for(d, 10.0)
         d["drain"] = 0.0
         return d
@@ -92,6 +92,7 @@ def scenario(big: bool = False) -> Any:
         "stop": cm.times(120), "has_stop": st.sampled_from([False, False, False, True]),
         "save_latency": st.sampled_from([0.0, 0.0, 0.1]),
         "waits": st.sampled_from([False, False, False, True]),
+        "W": st.sampled_from([None, None, 30.0, 5.0]),          # wait_tasks_timeout configured (it only matters once a shutdown begins)
     }).map(fin)
 
 
